@@ -361,7 +361,9 @@ def gen_cf_cases(ctx, n):
             q = Fraction(s) * k if isinstance(s, int) else Fraction(Decimal(repr(s))) * k
             x = frac_to_float(q + rng.choice([0, 0, Fraction(1, 10 ** rng.randint(1, 6)),
                                               -Fraction(1, 10 ** rng.randint(1, 6))]))
-            if rng.random() < 0.3 and x == int(x) and abs(x) < 1e15:
+            if math.isinf(x):
+                x = rand_decimal(rng)
+            elif rng.random() < 0.3 and x == int(x) and abs(x) < 1e15:
                 x = int(x)
         elif r < 0.9:
             x = rand_decimal(rng)
@@ -516,7 +518,8 @@ def check_case(fn, args, resp, known_ids):
     if 'impl' not in d:
         raise RuntimeError(f'driver: {resp!r} for {fn}{args!r}')
     impl, spec, kf = un_value(d['impl']), d['spec'], d.get('kf', '')
-    real = real_outcome(xl.FUNCTIONS[fn], args)
+    fobj = xl.FUNCTIONS.get(fn)
+    real = real_outcome(fobj, args) if fobj is not None else ('crash', 'NotRegistered')
     got = f'{real[0]}:{real[1]!r}'
     nontrivial = False
 
@@ -553,15 +556,19 @@ def check_case(fn, args, resp, known_ids):
         expected = f'float({spec[:60]})={sf!r}'
         x, s = Fraction(Decimal(repr(float(args[0])))), Fraction(Decimal(repr(float(args[1]))))
         nontrivial = sv != x
-        if s != 0 and abs(x / s) >= 2 ** 1023:
+        if s != 0 and abs(x / s) >= 2 ** 1023 and real[0] == 'err':
             # number / significance leaves the double range: an Excel error is accepted (ASSUMPTIONS)
-            if real[0] == 'err' or (real[0] == 'val' and close(real[1], sf)):
-                return ('ok', expected, got, False)
-            return (f'violation:{fn} with an overflowing quotient', expected + ' or an Excel error', got, True)
+            return ('ok', expected + ' or an Excel error', got, False)
         exact_zone = s.denominator == 1 and abs(x) < TWO53 and abs(sv) <= TWO53 and abs(s) < TWO53
         if real[0] == 'val':
-            if as_float(real[1]) == sf or (s.denominator == 1 and not exact_zone and close(real[1], sf)):
-                return ('ok' if model_agrees(0 if exact_zone else ULPS) else 'drift', expected, got, nontrivial)
+            # above 2^53 a double cannot hold the exact multiple: 4 ulp, or one step of the significance
+            loose = s.denominator == 1 and not exact_zone and \
+                (close(real[1], sf) or abs(Fraction(real[1]) - sv) <= abs(s))
+            if as_float(real[1]) == sf or loose:
+                return ('ok' if model_agrees(0 if exact_zone else ULPS) or loose else 'drift', expected, got,
+                        nontrivial)
+        if kf == 'D1605' and 'D1605' in known_ids and real[0] == 'val' and real[1] == 0:
+            return ('known:D1605', expected, got, True)
         if kf == 'D37' and 'D37' in known_ids:
             rep = (replica_ceiling if fn == 'CEILING' else replica_floor)(*args)
             same = real[0] == rep[0] and (real[1] == rep[1] if real[0] != 'val' else
@@ -616,9 +623,8 @@ def check_case(fn, args, resp, known_ids):
             return ('ok', 'a finite value', got, False)
         return (f'violation:{fn} of a large argument is not a finite value', 'a finite value', got, True)
     if real[0] == 'val' and not isinstance(real[1], bool):
-        tiny = abs(ref) < 1e-290 and abs(as_float(real[1]) - ref) < 1e-305     # underflow region
-        if close(real[1], ref) or tiny:
-            return ('ok' if model_agrees(2 * ULPS) or tiny else 'drift', expected, got, True)
+        if close(real[1], ref):
+            return ('ok' if model_agrees(2 * ULPS) else 'drift', expected, got, True)
     return (f'violation:{fn} is not within {ULPS} ulp of the reference value', expected, got, True)
 
 
@@ -711,8 +717,6 @@ def run(ctx):
         cases = load_corpus()
         cases += gen_round_cases(ctx, n_round) + gen_cf_cases(ctx, n_cf) + gen_elem_cases(ctx, n_el)
         lit = LITERAL_FORMULAS
-    registered = set(xl.FUNCTIONS)
-    cases = [c for c in cases if c[0] in registered or res.notes.append(f'{c[0]} is not registered') ]
     CH = 50000
     verdict_count = {}
     for off in range(0, len(cases), CH):
@@ -729,10 +733,10 @@ def run(ctx):
             if nontrivial:
                 res.nontrivial.add(line)
             if res.evaluations % 997 == 1:
-                res.sample({'fn': fn, 'args': [repr(a) for a in args], 'real': got, 'spec': expected})
+                res.sample({'fn': fn, 'args': [repr(a)[:60] for a in args], 'real': got[:100], 'spec': expected[:100]})
             if kind == 'violation':
                 res.violations.append({'what': verdict.split(':', 1)[1], 'input': {'fn': fn, 'args': list(args)},
-                                       'expected': expected, 'got': got})
+                                       'expected': expected[:200], 'got': got[:200]})
             elif kind == 'known':
                 res.known.setdefault(verdict.split(':', 1)[1], []).append({'fn': fn, 'args': list(args)})
             elif kind == 'drift':
